@@ -33,10 +33,11 @@ REACH_GRID = ((0.5, 0.05, 0.95), None)   # default answers of random.random(): r
 class Run:
     """One execution: answers choice i with prefix[i], and with alternative 0 beyond the prefix."""
     __slots__ = ('prefix', 'trace', 'weight', 'unscripted', 'float_policy_fn', 'ndraws', 'notes',
-                 'states', 'transitions', 'n_float')
+                 'states', 'transitions', 'n_float', 'default_last')
 
-    def __init__(self, prefix=(), float_policy=None):
+    def __init__(self, prefix=(), float_policy=None, default_last=False):
         self.prefix = prefix
+        self.default_last = default_last   # base execution answers arity-1 instead of 0 (second pass)
         self.trace = []          # (arity, chosen, cost, label, weights)
         self.weight = Fraction(1)
         self.unscripted = 0
@@ -60,8 +61,8 @@ class Run:
             if c >= arity:
                 raise ReplayDivergence(f"choice {i} ({label}): prefix wants {c}, arity {arity}")
         else:
-            c = 0
-            if weights is not None and weights[0] == 0:
+            c = arity - 1 if (self.default_last and cost) else 0
+            if weights is not None and weights[c] == 0:
                 # default must be a possible alternative
                 c = next(j for j, w in enumerate(weights) if w != 0)
         self.trace.append((arity, c, cost, label, weights))
@@ -80,9 +81,9 @@ class Run:
         return tuple(t[1] for t in self.trace)
 
 
-def execute(driver, prefix=(), float_policy=None, check_ownership=True):
+def execute(driver, prefix=(), float_policy=None, check_ownership=True, default_last=False):
     """Run the driver once under the scripted generators. Returns (run, result, violation)."""
-    run = Run(tuple(prefix), float_policy)
+    run = Run(tuple(prefix), float_policy, default_last)
     before = scripted.generator_state() if check_ownership else None
     prev = scripted.active()
     scripted.set_active(run)
@@ -118,7 +119,7 @@ class Stats:
 
 
 def explore(driver, on_leaf=None, bound=None, root=(), float_policy=None, max_exec=None,
-            max_violations=3, check_ownership=False, weighted=False):
+            max_violations=3, check_ownership=False, weighted=False, default_last=False):
     """Depth-first enumeration of the driver's choice tree below `root`.
 
     bound=None  : full enumeration (every leaf exactly once).
@@ -131,7 +132,7 @@ def explore(driver, on_leaf=None, bound=None, root=(), float_policy=None, max_ex
     seen_keys = set()
     while stack:
         p = stack.pop()
-        run, result, viol = execute(driver, p, float_policy, check_ownership)
+        run, result, viol = execute(driver, p, float_policy, check_ownership, default_last)
         st.executions += 1
         st.unscripted += run.unscripted
         tr = run.trace
@@ -152,7 +153,7 @@ def explore(driver, on_leaf=None, bound=None, root=(), float_policy=None, max_ex
         dev = 0
         if bound is not None:
             for j in range(len(p)):
-                if p[j] != 0:
+                if p[j] != ((tr[j][0] - 1) if (default_last and tr[j][2]) else 0):
                     dev += tr[j][2]
         base = run.choices()
         for i in range(len(tr) - 1, len(p) - 1, -1):
